@@ -1,6 +1,1276 @@
-//! C02 — stub: correspondence harness not built yet.
+//! C02 — a commit publishes exactly the sequential effect of the operations before it.
+//!
+//! Generated histories over the public `IndexWriter` API (add_document, delete_term,
+//! delete_query, run(batch), delete_all_documents, commit, prepare_commit + set_payload +
+//! commit / abort / drop, rollback, merge + wait, wait_merging_threads + reopen, drop + reopen,
+//! two producer threads sharing `&IndexWriter`), under 1..8 indexing threads, the
+//! `set_segment_cut_docs` hook (segments cut every few documents) and {NoMergePolicy,
+//! LogMergePolicy with a small min_num_segments}.
+//!
+//! After every commit / rollback a freshly reloaded searcher is dumped three ways (stored
+//! fields, fast field, term queries); the multiset of ids must equal
+//!   * the harness's own sequential replay            (oracle),
+//!   * `replay` of the Lean specification             (oracle; `C02 replay …`),
+//!   * the Lean implementation-level model under a pseudo-random schedule, ticked to the
+//!     observed opstamps, when the history satisfies the hypothesis of
+//!     `C02_commit_refines_replay_partial`            (model correspondence; `C02 impl …`).
+//! Return values: opstamps strictly increasing as documented, commit() = PreparedCommit::opstamp
+//! = IndexMeta::opstamp, payload, rollback() = last commit, commit_opstamp().
+use crate::rng::Rng;
 use crate::Ctx;
+use serde::{Deserialize, Serialize};
+use serde_json::json;
+use std::collections::{BTreeMap, BTreeSet};
+use std::ops::Bound;
+use std::panic::{catch_unwind, AssertUnwindSafe};
+use tantivy::collector::Count;
+use tantivy::directory::{MmapDirectory, RamDirectory};
+use tantivy::indexer::{LogMergePolicy, NoMergePolicy, UserOperation};
+use tantivy::query::{AllQuery, BooleanQuery, EmptyQuery, Occur, Query, RangeQuery, TermQuery};
+use tantivy::schema::{Field, IndexRecordOption, Schema, Value, FAST, INDEXED, STORED, STRING, TEXT};
+use tantivy::{DocAddress, Index, IndexWriter, ReloadPolicy, TantivyDocument, Term};
+
+const NTAG: u64 = 5;
+const NWORD: u64 = 6;
+const NGRP: u64 = 3;
+
+const K_F1: &str = "C02:commit-opstamp-stale";
+const K_F2: &str = "C02:delete-all-misses-pending-docs";
+const K_F3: &str = "C02:delete-all-reverts-stamper";
+const K_F8: &str = "C02:reopen-first-delete-published-by-merge";
+
+fn mix(mut z: u64) -> u64 {
+    z = z.wrapping_add(0x9E37_79B9_7F4A_7C15);
+    z = (z ^ (z >> 30)).wrapping_mul(0xBF58_476D_1CE4_E5B9);
+    z = (z ^ (z >> 27)).wrapping_mul(0x94D0_49BB_1331_11EB);
+    z ^ (z >> 31)
+}
+// the content of a document is a function of its id (so a case is described by ids alone)
+fn doc_tag(id: u64) -> u64 {
+    mix(id ^ 0xA1A1) % NTAG
+}
+fn doc_grp(id: u64) -> u64 {
+    mix(id ^ 0xB2B2) % NGRP
+}
+fn doc_words(id: u64) -> Vec<u64> {
+    let h = mix(id ^ 0xC3C3);
+    let n = 1 + (h % 3);
+    let mut ws: Vec<u64> = (0..n).map(|i| (h >> (8 * (i + 1))) % NWORD).collect();
+    ws.sort();
+    ws.dedup();
+    ws
+}
+fn doc_body(id: u64) -> String {
+    doc_words(id).iter().map(|w| format!("w{w}")).collect::<Vec<_>>().join(" ")
+}
+
+/// delete targets; `Id/Tag/Word/Grp` are terms (usable with delete_term and in batches)
+#[derive(Serialize, Deserialize, Clone, Debug, PartialEq)]
+enum Q {
+    Id(u64),
+    Tag(u64),
+    Word(u64),
+    Grp(u64),
+    And(Box<Q>, Box<Q>),
+    Or(Box<Q>, Box<Q>),
+    Range(u64, u64),
+    All,
+    Nothing,
+}
+
+fn q_matches(q: &Q, id: u64) -> bool {
+    match q {
+        Q::Id(k) => id == *k,
+        Q::Tag(t) => doc_tag(id) == *t,
+        Q::Word(w) => doc_words(id).contains(w),
+        Q::Grp(g) => doc_grp(id) == *g,
+        Q::And(a, b) => q_matches(a, id) && q_matches(b, id),
+        Q::Or(a, b) => q_matches(a, id) || q_matches(b, id),
+        Q::Range(lo, hi) => *lo <= id && id < *hi,
+        Q::All => true,
+        Q::Nothing => false,
+    }
+}
+
+#[derive(Clone, Copy)]
+struct Fields {
+    id: Field,
+    tag: Field,
+    body: Field,
+    grp: Field,
+}
+
+fn q_term(q: &Q, f: &Fields) -> Term {
+    match q {
+        Q::Id(k) => Term::from_field_u64(f.id, *k),
+        Q::Tag(t) => Term::from_field_text(f.tag, &format!("t{t}")),
+        Q::Word(w) => Term::from_field_text(f.body, &format!("w{w}")),
+        Q::Grp(g) => Term::from_field_u64(f.grp, *g),
+        _ => panic!("not a term"),
+    }
+}
+
+fn q_build(q: &Q, f: &Fields) -> Box<dyn Query> {
+    match q {
+        Q::Id(_) | Q::Tag(_) | Q::Word(_) | Q::Grp(_) => Box::new(TermQuery::new(q_term(q, f), IndexRecordOption::Basic)),
+        Q::And(a, b) => Box::new(BooleanQuery::new(vec![(Occur::Must, q_build(a, f)), (Occur::Must, q_build(b, f))])),
+        Q::Or(a, b) => Box::new(BooleanQuery::new(vec![(Occur::Should, q_build(a, f)), (Occur::Should, q_build(b, f))])),
+        Q::Range(lo, hi) => Box::new(RangeQuery::new(
+            Bound::Included(Term::from_field_u64(f.id, *lo)),
+            Bound::Excluded(Term::from_field_u64(f.id, *hi)),
+        )),
+        Q::All => Box::new(AllQuery),
+        Q::Nothing => Box::new(EmptyQuery),
+    }
+}
+
+#[derive(Serialize, Deserialize, Clone, Debug)]
+enum BItem {
+    Add(u64),
+    Del(Q),
+}
+
+#[derive(Serialize, Deserialize, Clone, Debug)]
+enum HOp {
+    Add(u64),
+    DelTerm(Q),
+    DelQuery(Q),
+    Batch(Vec<BItem>),
+    DeleteAll,
+    Commit,
+    CommitPrepared(Option<u64>),
+    PrepareDrop,
+    PrepareAbort,
+    Rollback,
+    Merge(u64),
+    WaitMergeReopen,
+    DropReopen(bool),
+    Concurrent(Vec<Vec<HOp>>),
+}
+
+#[derive(Serialize, Deserialize, Clone, Debug)]
+struct Config {
+    threads: usize,
+    cut: u32,
+    /// 0 = NoMergePolicy, n>0 = LogMergePolicy with min_num_segments n
+    policy: usize,
+    mmap: bool,
+}
+
+#[derive(Serialize, Deserialize, Clone, Debug)]
+struct Case {
+    config: Config,
+    ops: Vec<HOp>,
+}
+
+/// token of the Lean line protocol, rendered late (a delete's extension ranges over all ids of
+/// the history so far, including documents added after it)
+#[derive(Clone, Debug)]
+enum Tok {
+    Add(u64),
+    Del(Q),
+    Batch(Vec<BItem>),
+    DeleteAll,
+    Commit(Option<u64>),
+    Rollback,
+    Prepare,
+}
+
+fn ext(q: &Q, all_ids: &[u64]) -> String {
+    let v: Vec<u64> = all_ids.iter().cloned().filter(|i| q_matches(q, *i)).collect();
+    crate::model::nat_list(&v)
+}
+
+fn render(toks: &[(Tok, Option<u64>)], all_ids: &[u64], with_obs: bool) -> String {
+    let mut out = String::new();
+    for (t, obs) in toks {
+        if !out.is_empty() {
+            out.push(' ');
+        }
+        match t {
+            Tok::Add(i) => out.push_str(&format!("a{i}")),
+            Tok::Del(q) => out.push_str(&format!("d{}", ext(q, all_ids))),
+            Tok::Batch(items) => {
+                if items.is_empty() {
+                    out.push_str("b-");
+                } else {
+                    out.push('b');
+                    for (k, it) in items.iter().enumerate() {
+                        if k > 0 {
+                            out.push(';');
+                        }
+                        match it {
+                            BItem::Add(i) => out.push_str(&format!("a{i}")),
+                            BItem::Del(q) => out.push_str(&format!("d{}", ext(q, all_ids))),
+                        }
+                    }
+                }
+            }
+            Tok::DeleteAll => out.push('x'),
+            Tok::Commit(None) => out.push('c'),
+            Tok::Commit(Some(p)) => out.push_str(&format!("c{p}")),
+            Tok::Rollback => out.push('r'),
+            Tok::Prepare => out.push('p'),
+        }
+        if with_obs {
+            if let Some(o) = obs {
+                out.push_str(&format!("@{o}"));
+            }
+        }
+    }
+    out
+}
+
+enum Dir {
+    Ram(RamDirectory),
+    Mmap(tempfile::TempDir),
+}
+
+impl Dir {
+    fn open(&self) -> Box<dyn tantivy::Directory> {
+        match self {
+            Dir::Ram(r) => Box::new(r.clone()),
+            Dir::Mmap(t) => Box::new(MmapDirectory::open(t.path()).unwrap()),
+        }
+    }
+}
+
+fn make_doc(f: &Fields, id: u64) -> TantivyDocument {
+    let mut d = TantivyDocument::default();
+    d.add_u64(f.id, id);
+    d.add_text(f.tag, format!("t{}", doc_tag(id)));
+    d.add_text(f.body, doc_body(id));
+    d.add_u64(f.grp, doc_grp(id));
+    d
+}
+
+/// state of one executed history
+struct Exec {
+    cfg: Config,
+    dir: Dir,
+    index: Index,
+    f: Fields,
+    writer: Option<IndexWriter>,
+    // sequential replay (the harness's own oracle)
+    committed: Vec<u64>,
+    pending: Vec<u64>,
+    all_ids: Vec<u64>,
+    toks: Vec<(Tok, Option<u64>)>,
+    // opstamp bookkeeping
+    session_start: u64,
+    last_stamp: Option<u64>,
+    last_commit: Option<u64>,
+    last_payload: Option<Option<u64>>,
+    // attribution of the known delete_all defects
+    tx_added: Vec<u64>,
+    session_dels: Vec<(Q, u64)>,
+    stale_dels: Vec<(Q, u64)>,
+    stuck_dels: Vec<Q>,
+    f2_cands: BTreeSet<u64>,
+    f3_missing: BTreeSet<u64>,
+    f3_extra: BTreeSet<u64>,
+    dirty_delete_all: bool,
+    /// documents of the committed state matched by a delete that was the first stamped operation
+    /// of a re-created writer (its opstamp equals the commit opstamp: a merge of committed
+    /// segments, whose target is that opstamp, applies and publishes it)
+    f8_cands: BTreeSet<u64>,
+    first_del: bool,
+    /// a merge of committed segments can have run since such a delete: a merge policy is set, an
+    /// explicit merge was issued, or rollback() re-created the writer (which silently resets the
+    /// merge policy to the default LogMergePolicy)
+    merge_possible: bool,
+    had_delete: bool,
+    nsegs_max: usize,
+    fresh: bool,
+    was_fresh: bool,
+    checkpoints: u64,
+    errors: Vec<String>,
+}
+
+struct Finding {
+    kind: &'static str,
+    key: String,
+    what: String,
+}
+
+impl Exec {
+    fn new(cfg: &Config) -> Exec {
+        let mut sb = Schema::builder();
+        let id = sb.add_u64_field("id", FAST | INDEXED | STORED);
+        let tag = sb.add_text_field("tag", STRING | STORED);
+        let body = sb.add_text_field("body", TEXT | STORED);
+        let grp = sb.add_u64_field("grp", FAST | INDEXED | STORED);
+        let schema = sb.build();
+        let dir = if cfg.mmap { Dir::Mmap(tempfile::tempdir().unwrap()) } else { Dir::Ram(RamDirectory::create()) };
+        let index = Index::create(dir.open(), schema, Default::default()).unwrap();
+        tantivy::verif::set_segment_cut_docs(cfg.cut);
+        let mut e = Exec {
+            cfg: cfg.clone(),
+            dir,
+            index,
+            f: Fields { id, tag, body, grp },
+            writer: None,
+            committed: vec![],
+            pending: vec![],
+            all_ids: vec![],
+            toks: vec![],
+            session_start: 0,
+            last_stamp: None,
+            last_commit: None,
+            last_payload: None,
+            tx_added: vec![],
+            session_dels: vec![],
+            stale_dels: vec![],
+            stuck_dels: vec![],
+            f2_cands: BTreeSet::new(),
+            f3_missing: BTreeSet::new(),
+            f3_extra: BTreeSet::new(),
+            dirty_delete_all: false,
+            f8_cands: BTreeSet::new(),
+            first_del: false,
+            merge_possible: cfg.policy != 0,
+            had_delete: false,
+            nsegs_max: 0,
+            fresh: false,
+            was_fresh: false,
+            checkpoints: 0,
+            errors: vec![],
+        };
+        e.open_writer();
+        e
+    }
+
+    fn open_writer(&mut self) {
+        let w: IndexWriter = self.index.writer_with_num_threads(self.cfg.threads, self.cfg.threads * 15_000_000).unwrap();
+        if self.cfg.policy == 0 {
+            w.set_merge_policy(Box::new(NoMergePolicy));
+        } else {
+            let mut p = LogMergePolicy::default();
+            p.set_min_num_segments(self.cfg.policy);
+            w.set_merge_policy(Box::new(p));
+        }
+        self.session_start = self.index.load_metas().unwrap().opstamp;
+        self.writer = Some(w);
+        self.last_stamp = None;
+        self.session_dels.clear();
+        self.stale_dels.clear();
+        self.stuck_dels.clear();
+    }
+
+    fn w(&self) -> &IndexWriter {
+        self.writer.as_ref().unwrap()
+    }
+
+    /// an opstamp returned by add / delete / run / commit / prepare: strictly increasing
+    fn stamp(&mut self, o: u64, what: &str, out: &mut Vec<Finding>) {
+        if let Some(prev) = self.last_stamp {
+            if o <= prev {
+                out.push(Finding { kind: "oracle", key: "C02:opstamp-not-increasing".into(), what: format!("{what} returned opstamp {o} after {prev}") });
+            }
+        }
+        self.last_stamp = Some(o);
+        self.was_fresh = self.fresh;
+        self.fresh = false;
+    }
+
+    fn tainted(&self, now: u64) -> bool {
+        self.stale_dels.iter().any(|(_, o)| *o >= now)
+    }
+
+    fn note_add(&mut self, id: u64, op: u64) {
+        self.all_ids.push(id);
+        self.pending.push(id);
+        self.tx_added.push(id);
+        // F3: a delete issued before a delete_all of this session can still hit the document,
+        // either directly (the reverted stamper gave the add a smaller opstamp) or through a
+        // later delete queued behind it (applied without per-document opstamps once reached)
+        if self.stale_dels.iter().any(|(q, dop)| q_matches(q, id) && op < *dop) {
+            self.f3_missing.insert(id);
+        }
+        if self.tainted(op) && self.stuck_dels.iter().any(|q| q_matches(q, id)) {
+            self.f3_missing.insert(id);
+        }
+    }
+
+    fn note_del(&mut self, q: &Q, op: u64) {
+        self.had_delete = true;
+        if op == self.session_start && self.was_fresh {
+            self.first_del = true;
+            for id in self.committed.iter().filter(|i| q_matches(q, **i)) {
+                self.f8_cands.insert(*id);
+            }
+        }
+        if self.tainted(op) {
+            // queued behind a delete with a larger opstamp: may be applied late or never
+            for id in self.pending.iter().filter(|i| q_matches(q, **i)) {
+                self.f3_extra.insert(*id);
+            }
+            self.stuck_dels.push(q.clone());
+        }
+        self.pending.retain(|i| !q_matches(q, *i));
+        self.session_dels.push((q.clone(), op));
+    }
+
+    fn apply(&mut self, ctx: &mut Ctx, op: &HOp, case: &Case, out: &mut Vec<Finding>) {
+        match op {
+            HOp::Add(id) => match self.w().add_document(make_doc(&self.f, *id)) {
+                Ok(o) => {
+                    self.stamp(o, "add_document", out);
+                    self.note_add(*id, o);
+                    self.toks.push((Tok::Add(*id), Some(o)));
+                }
+                Err(e) => self.errors.push(format!("add_document: {e}")),
+            },
+            HOp::DelTerm(q) => {
+                let o = self.w().delete_term(q_term(q, &self.f));
+                self.stamp(o, "delete_term", out);
+                self.note_del(q, o);
+                self.toks.push((Tok::Del(q.clone()), Some(o)));
+            }
+            HOp::DelQuery(q) => match self.w().delete_query(q_build(q, &self.f)) {
+                Ok(o) => {
+                    self.stamp(o, "delete_query", out);
+                    self.note_del(q, o);
+                    self.toks.push((Tok::Del(q.clone()), Some(o)));
+                }
+                Err(e) => self.errors.push(format!("delete_query: {e}")),
+            },
+            HOp::Batch(items) => {
+                let ops: Vec<UserOperation> = items
+                    .iter()
+                    .map(|it| match it {
+                        BItem::Add(id) => UserOperation::Add(make_doc(&self.f, *id)),
+                        BItem::Del(q) => UserOperation::Delete(q_term(q, &self.f)),
+                    })
+                    .collect();
+                match self.w().run(ops) {
+                    Ok(o) => {
+                        self.stamp(o, "run", out);
+                        let n = items.len() as u64;
+                        for (k, it) in items.iter().enumerate() {
+                            let iop = (o + k as u64).saturating_sub(n);
+                            match it {
+                                BItem::Add(id) => self.note_add(*id, iop),
+                                BItem::Del(q) => self.note_del(q, iop),
+                            }
+                        }
+                        self.toks.push((Tok::Batch(items.clone()), Some(o)));
+                    }
+                    Err(e) => self.errors.push(format!("run: {e}")),
+                }
+            }
+            HOp::DeleteAll => match self.w().delete_all_documents() {
+                Ok(o) => {
+                    // the returned value is IndexWriter::committed_opstamp (see F1)
+                    let expect = self.last_commit_of_session();
+                    if o != expect {
+                        if o == self.session_start {
+                            out.push(Finding { kind: "oracle", key: K_F1.into(), what: format!("delete_all_documents returned {o}, the opstamp at writer creation, although the last commit returned {expect}") });
+                        } else {
+                            out.push(Finding { kind: "oracle", key: "C02:delete-all-opstamp-wrong".into(), what: format!("delete_all_documents returned {o}; last commit {expect}; writer created at {}", self.session_start) });
+                        }
+                    }
+                    if !self.tx_added.is_empty() || !self.session_dels.is_empty() {
+                        self.dirty_delete_all = true;
+                    }
+                    for id in &self.tx_added {
+                        self.f2_cands.insert(*id);
+                    }
+                    self.stale_dels = self.session_dels.clone();
+                    self.fresh = false;
+                    self.pending.clear();
+                    self.last_stamp = None; // the stamper was reverted (documented: "reverted stamp")
+                    self.toks.push((Tok::DeleteAll, Some(o)));
+                }
+                Err(e) => self.errors.push(format!("delete_all_documents: {e}")),
+            },
+            HOp::Commit => {
+                let r = self.writer.as_mut().unwrap().commit();
+                match r {
+                    Ok(o) => self.after_commit(ctx, o, None, None, case, out),
+                    Err(e) => out.push(Finding { kind: "oracle", key: "C02:commit-error".into(), what: format!("commit failed: {e}") }),
+                }
+            }
+            HOp::CommitPrepared(payload) => {
+                let w = self.writer.as_mut().unwrap();
+                let r = w.prepare_commit().and_then(|mut pc| {
+                    let po = pc.opstamp();
+                    if let Some(p) = payload {
+                        pc.set_payload(&format!("payload-{p}"));
+                    }
+                    pc.commit().map(|o| (po, o))
+                });
+                match r {
+                    Ok((po, o)) => self.after_commit(ctx, o, Some(po), *payload, case, out),
+                    Err(e) => out.push(Finding { kind: "oracle", key: "C02:commit-error".into(), what: format!("prepared commit failed: {e}") }),
+                }
+            }
+            HOp::PrepareDrop => {
+                let r = self.writer.as_mut().unwrap().prepare_commit().map(|pc| pc.opstamp());
+                match r {
+                    Ok(o) => {
+                        self.stamp(o, "prepare_commit", out);
+                        self.toks.push((Tok::Prepare, Some(o)));
+                    }
+                    Err(e) => self.errors.push(format!("prepare_commit: {e}")),
+                }
+            }
+            HOp::PrepareAbort => {
+                let r = self.writer.as_mut().unwrap().prepare_commit().and_then(|pc| pc.abort());
+                match r {
+                    Ok(o) => {
+                        self.merge_possible = true;
+                        self.after_rollback(ctx, Some(o), "abort", case, out)
+                    }
+                    Err(e) => out.push(Finding { kind: "oracle", key: "C02:rollback-error".into(), what: format!("abort failed: {e}") }),
+                }
+            }
+            HOp::Rollback => {
+                let r = self.writer.as_mut().unwrap().rollback();
+                match r {
+                    Ok(o) => {
+                        self.merge_possible = true;
+                        self.after_rollback(ctx, Some(o), "rollback", case, out)
+                    }
+                    Err(e) => out.push(Finding { kind: "oracle", key: "C02:rollback-error".into(), what: format!("rollback failed: {e}") }),
+                }
+            }
+            HOp::Merge(mask) => {
+                let mut ids = self.index.searchable_segment_ids().unwrap_or_default();
+                ids.sort();
+                let chosen: Vec<_> = ids.iter().enumerate().filter(|(k, _)| (mask >> (k % 16)) & 1 == 1).map(|(_, i)| *i).collect();
+                if !chosen.is_empty() {
+                    self.merge_possible = true;
+                    ctx.report.count("op:merge-started");
+                    let fut = self.writer.as_mut().unwrap().merge(&chosen);
+                    match fut.wait() {
+                        Ok(_) => ctx.report.count("op:merge-ok"),
+                        Err(_) => ctx.report.count("op:merge-refused"),
+                    }
+                }
+            }
+            HOp::WaitMergeReopen => {
+                let w = self.writer.take().unwrap();
+                if let Err(e) = w.wait_merging_threads() {
+                    self.errors.push(format!("wait_merging_threads: {e}"));
+                }
+                self.open_writer();
+                self.after_rollback(ctx, None, "wait_merging_threads+reopen", case, out);
+            }
+            HOp::DropReopen(open_index) => {
+                drop(self.writer.take());
+                if *open_index {
+                    self.index = Index::open(self.dir.open()).unwrap();
+                }
+                self.open_writer();
+                self.after_rollback(ctx, None, "drop+reopen", case, out);
+            }
+            HOp::Concurrent(threads) => self.concurrent(threads, out),
+        }
+    }
+
+    /// two (or more) producer threads share `&IndexWriter`; their operations touch disjoint ids
+    fn concurrent(&mut self, threads: &[Vec<HOp>], out: &mut Vec<Finding>) {
+        let f = self.f;
+        let w = self.writer.as_ref().unwrap();
+        let results: Vec<Vec<(HOp, Result<u64, String>)>> = std::thread::scope(|s| {
+            let hs: Vec<_> = threads
+                .iter()
+                .map(|ops| {
+                    s.spawn(move || {
+                        let mut res = vec![];
+                        for op in ops {
+                            let r = match op {
+                                HOp::Add(id) => w.add_document(make_doc(&f, *id)).map_err(|e| e.to_string()),
+                                HOp::DelTerm(q) => Ok(w.delete_term(q_term(q, &f))),
+                                HOp::DelQuery(q) => w.delete_query(q_build(q, &f)).map_err(|e| e.to_string()),
+                                HOp::Batch(items) => {
+                                    let ops: Vec<UserOperation> = items
+                                        .iter()
+                                        .map(|it| match it {
+                                            BItem::Add(id) => UserOperation::Add(make_doc(&f, *id)),
+                                            BItem::Del(q) => UserOperation::Delete(q_term(q, &f)),
+                                        })
+                                        .collect();
+                                    w.run(ops).map_err(|e| e.to_string())
+                                }
+                                _ => Err("unsupported in a producer thread".to_string()),
+                            };
+                            res.push((op.clone(), r));
+                        }
+                        res
+                    })
+                })
+                .collect();
+            hs.into_iter().map(|h| h.join().unwrap()).collect()
+        });
+        // per thread: opstamps strictly increasing in program order
+        let mut all: Vec<(u64, HOp)> = vec![];
+        for (t, res) in results.iter().enumerate() {
+            let mut prev: Option<u64> = self.last_stamp;
+            for (op, r) in res {
+                match r {
+                    Ok(o) => {
+                        if let Some(p) = prev {
+                            if *o <= p {
+                                out.push(Finding { kind: "oracle", key: "C02:opstamp-not-increasing".into(), what: format!("producer thread {t}: opstamp {o} after {p}") });
+                            }
+                        }
+                        prev = Some(*o);
+                        all.push((*o, op.clone()));
+                    }
+                    Err(e) => self.errors.push(format!("producer thread {t}: {e}")),
+                }
+            }
+        }
+        // linearise by opstamp (the operations of different threads commute: disjoint ids)
+        all.sort_by_key(|(o, _)| *o);
+        let mut seen = BTreeSet::new();
+        for (o, op) in all {
+            if !seen.insert(o) {
+                out.push(Finding { kind: "oracle", key: "C02:opstamp-duplicate".into(), what: format!("two concurrent operations returned opstamp {o}") });
+            }
+            self.last_stamp = Some(self.last_stamp.map_or(o, |p| p.max(o)));
+            self.was_fresh = self.fresh;
+            self.fresh = false;
+            match op {
+                HOp::Add(id) => {
+                    self.note_add(id, o);
+                    self.toks.push((Tok::Add(id), Some(o)));
+                }
+                HOp::DelTerm(q) | HOp::DelQuery(q) => {
+                    self.note_del(&q, o);
+                    self.toks.push((Tok::Del(q), Some(o)));
+                }
+                HOp::Batch(items) => {
+                    let n = items.len() as u64;
+                    for (k, it) in items.iter().enumerate() {
+                        let iop = (o + k as u64).saturating_sub(n);
+                        match it {
+                            BItem::Add(id) => self.note_add(*id, iop),
+                            BItem::Del(q) => self.note_del(q, iop),
+                        }
+                    }
+                    self.toks.push((Tok::Batch(items), Some(o)));
+                }
+                _ => {}
+            }
+        }
+    }
+
+    fn last_commit_of_session(&self) -> u64 {
+        self.index.load_metas().map(|m| m.opstamp).unwrap_or(0)
+    }
+
+    fn after_commit(&mut self, ctx: &mut Ctx, o: u64, prepared: Option<u64>, payload: Option<u64>, case: &Case, out: &mut Vec<Finding>) {
+        // larger than every operation it includes
+        self.stamp(o, "commit", out);
+        if let Some(po) = prepared {
+            if po != o {
+                out.push(Finding { kind: "oracle", key: "C02:commit-opstamp-mismatch".into(), what: format!("PreparedCommit::opstamp() = {po} but commit() returned {o}") });
+            }
+        }
+        self.committed = self.pending.clone();
+        self.tx_added.clear();
+        self.last_commit = Some(o);
+        self.last_payload = Some(payload);
+        self.toks.push((Tok::Commit(payload), Some(o)));
+        match self.index.load_metas() {
+            Ok(m) => {
+                if m.opstamp != o {
+                    out.push(Finding { kind: "oracle", key: "C02:meta-opstamp-mismatch".into(), what: format!("commit() returned {o} but meta.json has opstamp {}", m.opstamp) });
+                }
+                let want = payload.map(|p| format!("payload-{p}"));
+                if m.payload != want {
+                    out.push(Finding { kind: "oracle", key: "C02:payload-mismatch".into(), what: format!("payload {:?} published, {:?} expected", m.payload, want) });
+                }
+            }
+            Err(e) => out.push(Finding { kind: "oracle", key: "C02:meta-unreadable".into(), what: format!("load_metas after commit: {e}") }),
+        }
+        let cop = self.w().commit_opstamp();
+        if cop != o {
+            if cop == self.session_start {
+                out.push(Finding { kind: "oracle", key: K_F1.into(), what: format!("commit() returned {o} but commit_opstamp() = {cop}, the opstamp at writer creation") });
+            } else {
+                out.push(Finding { kind: "oracle", key: "C02:commit-opstamp-wrong".into(), what: format!("commit() returned {o}, commit_opstamp() = {cop}, writer created at {}", self.session_start) });
+            }
+        }
+        self.checkpoint(ctx, "commit", Some(cop), case, out);
+    }
+
+    fn after_rollback(&mut self, ctx: &mut Ctx, ret: Option<u64>, how: &str, case: &Case, out: &mut Vec<Finding>) {
+        self.pending = self.committed.clone();
+        self.tx_added.clear();
+        self.session_dels.clear();
+        self.stale_dels.clear();
+        self.stuck_dels.clear();
+        self.last_stamp = None;
+        let meta_op = self.index.load_metas().map(|m| m.opstamp).unwrap_or(u64::MAX);
+        self.session_start = meta_op;
+        if let Some(r) = ret {
+            if r != meta_op {
+                out.push(Finding { kind: "oracle", key: "C02:rollback-opstamp-wrong".into(), what: format!("{how} returned {r}, meta.json has opstamp {meta_op}") });
+            }
+        }
+        if let Some(lc) = self.last_commit {
+            if lc != meta_op {
+                out.push(Finding { kind: "oracle", key: "C02:meta-opstamp-mismatch".into(), what: format!("after {how}: meta.json opstamp {meta_op}, last commit returned {lc}") });
+            }
+        }
+        self.toks.push((Tok::Rollback, None));
+        self.fresh = true;
+        let cop = self.w().commit_opstamp();
+        if cop != meta_op {
+            out.push(Finding { kind: "oracle", key: "C02:commit-opstamp-wrong".into(), what: format!("after {how}: commit_opstamp() = {cop}, meta.json opstamp {meta_op}") });
+        }
+        self.checkpoint(ctx, how, Some(cop), case, out);
+    }
+
+    /// dump a fresh searcher three ways
+    fn dump(&mut self) -> Result<(Vec<u64>, Vec<u64>, Vec<u64>, Vec<String>), String> {
+        let reader = self.index.reader_builder().reload_policy(ReloadPolicy::Manual).try_into().map_err(|e: tantivy::TantivyError| e.to_string())?;
+        reader.reload().map_err(|e| e.to_string())?;
+        let searcher = reader.searcher();
+        let mut stored = vec![];
+        let mut fast = vec![];
+        let mut field_errors = vec![];
+        self.nsegs_max = self.nsegs_max.max(searcher.segment_readers().len());
+        let mut total = 0u64;
+        for (ord, sr) in searcher.segment_readers().iter().enumerate() {
+            let col = sr.fast_fields().u64("id").map_err(|e| e.to_string())?;
+            let gcol = sr.fast_fields().u64("grp").map_err(|e| e.to_string())?;
+            total += sr.num_docs() as u64;
+            for doc in sr.doc_ids_alive() {
+                let fid = col.first(doc);
+                match fid {
+                    Some(v) => fast.push(v),
+                    None => field_errors.push(format!("segment {ord} doc {doc}: no fast id")),
+                }
+                let d: TantivyDocument = searcher.doc(DocAddress::new(ord as u32, doc)).map_err(|e| e.to_string())?;
+                let sid = d.get_first(self.f.id).and_then(|v| v.as_u64());
+                match sid {
+                    Some(id) => {
+                        stored.push(id);
+                        let tag = d.get_first(self.f.tag).and_then(|v| v.as_str().map(|s| s.to_string()));
+                        let body = d.get_first(self.f.body).and_then(|v| v.as_str().map(|s| s.to_string()));
+                        let grp = d.get_first(self.f.grp).and_then(|v| v.as_u64());
+                        if tag != Some(format!("t{}", doc_tag(id))) || body != Some(doc_body(id)) || grp != Some(doc_grp(id)) || gcol.first(doc) != Some(doc_grp(id)) || fid != Some(id) {
+                            field_errors.push(format!("document {id}: fields tag={tag:?} body={body:?} grp={grp:?} fast-id={fid:?}"));
+                        }
+                    }
+                    None => field_errors.push(format!("segment {ord} doc {doc}: no stored id")),
+                }
+            }
+        }
+        if total != stored.len() as u64 || searcher.num_docs() != total {
+            field_errors.push(format!("num_docs {} / {} vs {} alive documents", searcher.num_docs(), total, stored.len()));
+        }
+        // inverted index: every id ever added, by term query
+        let mut by_term = vec![];
+        for id in &self.all_ids {
+            let q = TermQuery::new(Term::from_field_u64(self.f.id, *id), IndexRecordOption::Basic);
+            let n = searcher.search(&q, &Count).map_err(|e| e.to_string())?;
+            for _ in 0..n {
+                by_term.push(*id);
+            }
+        }
+        // and the other indexed fields agree with the stored content
+        for t in 0..NTAG {
+            let q = TermQuery::new(Term::from_field_text(self.f.tag, &format!("t{t}")), IndexRecordOption::Basic);
+            let n = searcher.search(&q, &Count).map_err(|e| e.to_string())?;
+            let want = stored.iter().filter(|i| doc_tag(**i) == t).count();
+            if n != want {
+                field_errors.push(format!("term tag:t{t} matches {n} documents, {want} stored documents carry it"));
+            }
+        }
+        for w in 0..NWORD {
+            let q = TermQuery::new(Term::from_field_text(self.f.body, &format!("w{w}")), IndexRecordOption::Basic);
+            let n = searcher.search(&q, &Count).map_err(|e| e.to_string())?;
+            let want = stored.iter().filter(|i| doc_words(**i).contains(&w)).count();
+            if n != want {
+                field_errors.push(format!("term body:w{w} matches {n} documents, {want} stored documents carry it"));
+            }
+        }
+        stored.sort();
+        fast.sort();
+        by_term.sort();
+        Ok((stored, fast, by_term, field_errors))
+    }
+
+    fn checkpoint(&mut self, ctx: &mut Ctx, how: &str, cop: Option<u64>, _case: &Case, out: &mut Vec<Finding>) {
+        self.checkpoints += 1;
+        ctx.report.count(&format!("checkpoint:{how}"));
+        let (stored, fast, by_term, ferrs) = match self.dump() {
+            Ok(x) => x,
+            Err(e) => {
+                out.push(Finding { kind: "oracle", key: "C02:searcher-unreadable".into(), what: format!("after {how}: {e}") });
+                return;
+            }
+        };
+        for fe in ferrs.iter().take(2) {
+            out.push(Finding { kind: "oracle", key: "C02:survivor-fields-wrong".into(), what: format!("after {how}: {fe}") });
+        }
+        if stored != fast || stored != by_term {
+            out.push(Finding { kind: "oracle", key: "C02:dump-methods-disagree".into(), what: format!("after {how}: stored {:?} fast {:?} term-queries {:?}", stored, fast, by_term) });
+        }
+        let mut expected = self.committed.clone();
+        expected.sort();
+        // the Lean specification
+        let spec_line = render(&self.toks, &self.all_ids, false);
+        let spec = ask(ctx, &format!("C02 replay {spec_line}"));
+        let spec_committed = spec.split(';').next().and_then(|s| s.strip_prefix("committed=")).and_then(crate::model::parse_nat_list);
+        let spec_last = field(&spec, "last");
+        let spec_payload = field(&spec, "payload");
+        match &spec_committed {
+            Some(sc) if *sc == expected => {}
+            _ => out.push(Finding { kind: "model", key: "C02:spec-replay-vs-harness-replay".into(), what: format!("Lean replay {spec} vs harness replay {:?}", expected) }),
+        }
+        let want_payload = match self.last_payload { Some(Some(p)) => p.to_string(), _ => "-".to_string() };
+        if spec_payload.as_deref() != Some(&want_payload) {
+            out.push(Finding { kind: "model", key: "C02:spec-payload".into(), what: format!("Lean replay payload {:?}, harness {want_payload}", spec_payload) });
+        }
+        let _ = spec_last;
+        let clean = ask(ctx, &format!("C02 clean {spec_line}"));
+        let cfield = |name: &str| clean.split(';').find_map(|p| p.strip_prefix(&format!("{name}:")).map(|s| s.to_string()));
+        let lean_dirty = cfield("dirty").map_or(false, |s| s != "-");
+        let lean_first = cfield("firstdel").map_or(false, |s| s != "-");
+        // (the history-level rule of the model cannot see a stamp drawn by consider_merge_options
+        // before the first call of a re-created writer: it may flag more first-deletes, never fewer)
+        if lean_dirty != self.dirty_delete_all || (self.first_del && !lean_first) || (clean == "clean") != !(lean_dirty || lean_first) {
+            out.push(Finding { kind: "model", key: "C02:clean-verdict".into(), what: format!("Lean side conditions say {clean}, harness dirty={} first-delete={}", self.dirty_delete_all, self.first_del) });
+        }
+        let lean_clean = !lean_dirty;
+        ctx.report.count(if clean == "clean" { "history:hypothesis-holds" } else if lean_dirty { "history:dirty-delete-all" } else { "history:first-delete-after-reopen" });
+        // the property's oracle on the implementation
+        let mut dup = vec![];
+        for w in stored.windows(2) {
+            if w[0] == w[1] {
+                dup.push(w[0]);
+            }
+        }
+        if !dup.is_empty() {
+            out.push(Finding { kind: "oracle", key: "C02:duplicate-document".into(), what: format!("after {how}: documents {:?} are present more than once", dup) });
+        }
+        let real: BTreeSet<u64> = stored.iter().cloned().collect();
+        let exp: BTreeSet<u64> = expected.iter().cloned().collect();
+        let extra: Vec<u64> = real.difference(&exp).cloned().collect();
+        let missing: Vec<u64> = exp.difference(&real).cloned().collect();
+        if !extra.is_empty() || !missing.is_empty() {
+            ctx.report.count("checkpoint:differs-from-replay");
+            let (mut f2, mut f3e, mut other_e) = (vec![], vec![], vec![]);
+            for id in &extra {
+                if !lean_clean && self.f2_cands.contains(id) {
+                    f2.push(*id);
+                } else if !lean_clean && self.f3_extra.contains(id) {
+                    f3e.push(*id);
+                } else {
+                    other_e.push(*id);
+                }
+            }
+            let (mut f3m, mut other_m) = (vec![], vec![]);
+            let mut f8 = vec![];
+            for id in &missing {
+                if !lean_clean && self.f3_missing.contains(id) {
+                    f3m.push(*id);
+                } else if lean_first && self.first_del && self.merge_possible && self.f8_cands.contains(id) {
+                    f8.push(*id);
+                } else {
+                    other_m.push(*id);
+                }
+            }
+            if !f8.is_empty() {
+                out.push(Finding { kind: "oracle", key: K_F8.into(), what: format!("after {how}: documents {:?} were removed and published without a commit: the first delete of a re-created writer has the opstamp of the last commit and a merge of committed segments (target = that opstamp) applied it", f8) });
+            }
+            if !f2.is_empty() {
+                out.push(Finding { kind: "oracle", key: K_F2.into(), what: format!("after {how}: documents {:?} were added before a delete_all_documents of the same transaction and are published", f2) });
+            }
+            if !f3m.is_empty() {
+                out.push(Finding { kind: "oracle", key: K_F3.into(), what: format!("after {how}: documents {:?}, added after a delete_all_documents, were removed by a delete issued before it", f3m) });
+            }
+            if !f3e.is_empty() {
+                out.push(Finding { kind: "oracle", key: K_F3.into(), what: format!("after {how}: documents {:?} survive a delete queued behind one with a larger opstamp (stamper reverted by delete_all_documents)", f3e) });
+            }
+            if !other_e.is_empty() {
+                out.push(Finding { kind: "oracle", key: "C02:unexpected-survivor".into(), what: format!("after {how}: documents {:?} are published but not in the sequential replay", other_e) });
+            }
+            if !other_m.is_empty() {
+                out.push(Finding { kind: "oracle", key: "C02:missing-document".into(), what: format!("after {how}: documents {:?} of the sequential replay are not published", other_m) });
+            }
+        }
+        // the implementation-level model (every schedule gives the same answer when the hypothesis holds)
+        if clean == "clean" {
+            let line = render(&self.toks, &self.all_ids, true);
+            let seed = mix(self.checkpoints ^ (self.all_ids.len() as u64) << 8) % 1_000_000_007;
+            let resp = ask(ctx, &format!("C02 impl {} {} {}", self.cfg.threads, seed, line));
+            ctx.report.count("impl-model:runs");
+            let pubs = field(&resp, "pub").and_then(|s| crate::model::parse_nat_list(&s));
+            if pubs.as_ref() != Some(&stored) {
+                out.push(Finding { kind: "model", key: "C02:impl-model-published-mismatch".into(), what: format!("after {how}: implementation publishes {:?}, model {resp}", stored) });
+            } else {
+                let rets = field(&resp, "ret").and_then(|s| crate::model::parse_nat_list(&s)).unwrap_or_default();
+                let obs: Vec<Option<u64>> = self.toks.iter().map(|(_, o)| *o).collect();
+                for (k, o) in obs.iter().enumerate() {
+                    if let (Some(o), Some(r)) = (o, rets.get(k)) {
+                        if o != r {
+                            out.push(Finding { kind: "model", key: "C02:impl-model-opstamp-mismatch".into(), what: format!("after {how}: call #{k} returned {o}, model {r}") });
+                            break;
+                        }
+                    }
+                }
+                let meta_model = field(&resp, "meta").and_then(|s| s.parse::<u64>().ok());
+                let meta_real = self.index.load_metas().map(|m| m.opstamp).ok();
+                if meta_model != meta_real {
+                    out.push(Finding { kind: "model", key: "C02:impl-model-meta-opstamp".into(), what: format!("after {how}: meta.json opstamp {:?}, model {:?}", meta_real, meta_model) });
+                }
+                let cop_model = field(&resp, "cop").and_then(|s| s.parse::<u64>().ok());
+                if cop.is_some() && cop_model != cop {
+                    out.push(Finding { kind: "model", key: "C02:impl-model-commit-opstamp".into(), what: format!("after {how}: commit_opstamp() {:?}, model {:?}", cop, cop_model) });
+                }
+                if let Some(n) = field(&resp, "merges").and_then(|s| s.parse::<u64>().ok()) {
+                    ctx.report.count_n("impl-model:merges-in-flight-at-end", n);
+                }
+            }
+        }
+        let canon = format!("{:?}|{}", (self.cfg.threads, self.cfg.cut, self.cfg.policy), spec_line);
+        let nontrivial = self.had_delete && !self.all_ids.is_empty();
+        ctx.report.case(&canon, nontrivial);
+    }
+}
+
+fn ask(ctx: &mut Ctx, line: &str) -> String {
+    if let Ok(p) = std::env::var("C02_TRACE") {
+        use std::io::Write;
+        if let Ok(mut f) = std::fs::OpenOptions::new().create(true).append(true).open(p) {
+            let _ = writeln!(f, "{line}");
+        }
+    }
+    ctx.model.ask(line)
+}
+
+fn field(resp: &str, name: &str) -> Option<String> {
+    resp.split(';').find_map(|p| p.strip_prefix(&format!("{name}=")).map(|s| s.to_string()))
+}
+
+// ------------------------------------------------------------------------------------------
+// generation
+
+struct Gen {
+    next_id: u64,
+    live_guess: Vec<u64>,
+}
+
+impl Gen {
+    fn fresh(&mut self) -> u64 {
+        let id = self.next_id;
+        self.next_id += 1;
+        self.live_guess.push(id);
+        id
+    }
+    fn term(&mut self, rng: &mut Rng) -> Q {
+        match rng.below(10) {
+            0..=3 => {
+                // an existing id, a future id, or an id never used
+                match rng.below(6) {
+                    0 => Q::Id(self.next_id + rng.below(3)),
+                    1 => Q::Id(1_000_000 + rng.below(5)),
+                    _ if !self.live_guess.is_empty() => Q::Id(*rng.pick(&self.live_guess)),
+                    _ => Q::Id(self.next_id),
+                }
+            }
+            4..=6 => Q::Tag(rng.below(NTAG)),
+            7..=8 => Q::Word(rng.below(NWORD)),
+            _ => Q::Grp(rng.below(NGRP)),
+        }
+    }
+    fn query(&mut self, rng: &mut Rng) -> Q {
+        match rng.below(12) {
+            0..=3 => Q::And(Box::new(self.term(rng)), Box::new(self.term(rng))),
+            4..=5 => Q::Or(Box::new(self.term(rng)), Box::new(self.term(rng))),
+            6..=8 => {
+                let lo = rng.below(self.next_id + 2);
+                Q::Range(lo, lo + 1 + rng.below(6))
+            }
+            9 => Q::Nothing,
+            10 => Q::And(Box::new(Q::Tag(rng.below(NTAG))), Box::new(Q::Range(0, self.next_id + 3))),
+            _ => {
+                if rng.chance(1, 4) {
+                    Q::All
+                } else {
+                    self.term(rng)
+                }
+            }
+        }
+    }
+    fn batch(&mut self, rng: &mut Rng) -> Vec<BItem> {
+        let n = match rng.below(8) { 0 => 0, 1 => 1, _ => 2 + rng.usize_below(5) };
+        let mut items = vec![];
+        for _ in 0..n {
+            match rng.below(10) {
+                0..=5 => items.push(BItem::Add(self.fresh())),
+                6 => {
+                    // delete a document added earlier in this very batch, or one added right after
+                    let adds: Vec<u64> = items.iter().filter_map(|i| if let BItem::Add(x) = i { Some(*x) } else { None }).collect();
+                    if !adds.is_empty() && rng.chance(2, 3) {
+                        items.push(BItem::Del(Q::Id(*rng.pick(&adds))));
+                    } else {
+                        items.push(BItem::Del(Q::Id(self.next_id)));
+                    }
+                }
+                _ => items.push(BItem::Del(self.term(rng))),
+            }
+        }
+        items
+    }
+}
+
+fn gen_case(rng: &mut Rng, profile: u64) -> Case {
+    let threads = match rng.below(6) { 0 | 1 => 1, 2 => 2, 3 => 3, 4 => 4, _ => 8 };
+    let cut = *rng.pick(&[0u32, 0, 1, 2, 3, 5]);
+    let policy = *rng.pick(&[0usize, 0, 2, 3]);
+    let config = Config { threads, cut, policy, mmap: rng.chance(1, 12) };
+    let mut g = Gen { next_id: rng.below(3), live_guess: vec![] };
+    let mut ops: Vec<HOp> = vec![];
+    let n = 8 + rng.usize_below(if profile == 2 { 70 } else { 40 });
+    // profile 0: no delete_all; 1: delete_all shapes; 2: long, many segments; 3: producers
+    while ops.len() < n {
+        let mut r = rng.below(1000);
+        if (400..670).contains(&r) && matches!(ops.last(), Some(HOp::Rollback) | Some(HOp::PrepareAbort) | Some(HOp::WaitMergeReopen) | Some(HOp::DropReopen(_))) && rng.chance(5, 6) {
+            r = 0; // an add first: the first stamped operation of a re-created writer is special (F8)
+        }
+        match r {
+            0..=399 => ops.push(HOp::Add(g.fresh())),
+            400..=519 => ops.push(HOp::DelTerm(g.term(rng))),
+            520..=589 => ops.push(HOp::DelQuery(g.query(rng))),
+            590..=669 => ops.push(HOp::Batch(g.batch(rng))),
+            670..=759 => ops.push(if rng.chance(1, 2) { HOp::Commit } else { HOp::CommitPrepared(if rng.chance(2, 3) { Some(rng.below(1000)) } else { None }) }),
+            760..=789 => ops.push(HOp::Rollback),
+            790..=799 => ops.push(HOp::PrepareAbort),
+            800..=814 => ops.push(HOp::PrepareDrop),
+            815..=849 => ops.push(HOp::Merge(1 + rng.below(65535))),
+            850..=864 => ops.push(HOp::WaitMergeReopen),
+            865..=894 => ops.push(HOp::DropReopen(rng.chance(1, 2))),
+            895..=939 if profile == 3 || rng.chance(1, 4) => {
+                // producer threads: thread t owns ids of its own range; deletes by id term / id range only
+                let nt = 2 + rng.usize_below(2);
+                let mut threads_ops = vec![];
+                for _ in 0..nt {
+                    let base = g.next_id;
+                    let cnt = 2 + rng.below(8);
+                    g.next_id += cnt + 2;
+                    let mut tops = vec![];
+                    let mut added: Vec<u64> = vec![];
+                    let mut nxt = base;
+                    for _ in 0..(cnt + rng.below(4)) {
+                        match rng.below(10) {
+                            0..=5 if nxt < base + cnt => {
+                                tops.push(HOp::Add(nxt));
+                                added.push(nxt);
+                                nxt += 1;
+                            }
+                            6..=7 if !added.is_empty() => tops.push(HOp::DelTerm(Q::Id(*rng.pick(&added)))),
+                            8 => tops.push(HOp::DelTerm(Q::Id(nxt))),
+                            9 if nxt + 1 < base + cnt => {
+                                tops.push(HOp::Batch(vec![BItem::Add(nxt), BItem::Del(Q::Id(nxt)), BItem::Add(nxt + 1)]));
+                                added.push(nxt + 1);
+                                nxt += 2;
+                            }
+                            _ => {
+                                let lo = base + rng.below(cnt);
+                                tops.push(HOp::DelQuery(Q::Range(lo, (lo + 1 + rng.below(2)).min(base + cnt + 2))));
+                            }
+                        }
+                    }
+                    g.live_guess.extend(added);
+                    threads_ops.push(tops);
+                }
+                ops.push(HOp::Concurrent(threads_ops));
+            }
+            940..=999 if profile == 1 => {
+                // delete_all_documents, near the three known shapes and in the clean shape
+                match rng.below(5) {
+                    0 => {
+                        // clean: nothing pending, no delete issued by this writer
+                        ops.push(if rng.chance(1, 2) { HOp::Rollback } else { HOp::Commit });
+                        if !matches!(ops.last(), Some(HOp::Rollback)) {
+                            ops.push(HOp::DropReopen(rng.chance(1, 2)));
+                        }
+                        ops.push(HOp::DeleteAll);
+                    }
+                    1 => {
+                        // F2 shape: adds of the current transaction, then delete_all
+                        for _ in 0..1 + rng.below(3) {
+                            ops.push(HOp::Add(g.fresh()));
+                        }
+                        ops.push(HOp::DeleteAll);
+                    }
+                    2 => {
+                        // F3 shape: pending delete, delete_all, then a matching add
+                        let t = g.term(rng);
+                        ops.push(HOp::DelTerm(t.clone()));
+                        ops.push(HOp::DeleteAll);
+                        for _ in 0..1 + rng.below(4) {
+                            let id = g.fresh();
+                            ops.push(HOp::Add(id));
+                        }
+                        if let Q::Id(k) = t {
+                            if k >= g.next_id && k < g.next_id + 4 {
+                                while g.next_id <= k {
+                                    ops.push(HOp::Add(g.fresh()));
+                                }
+                            }
+                        }
+                    }
+                    3 => {
+                        // committed, session has deletes
+                        ops.push(HOp::Commit);
+                        ops.push(HOp::DeleteAll);
+                    }
+                    _ => ops.push(HOp::DeleteAll),
+                }
+            }
+            _ => ops.push(HOp::Add(g.fresh())),
+        }
+    }
+    ops.push(HOp::Commit);
+    if rng.chance(1, 3) {
+        ops.push(HOp::DropReopen(true));
+    }
+    Case { config, ops }
+}
+
+fn run_case(ctx: &mut Ctx, case: &Case) -> Vec<Finding> {
+    let mut out: Vec<Finding> = vec![];
+    let res = catch_unwind(AssertUnwindSafe(|| {
+        let mut e = Exec::new(&case.config);
+        let mut found: Vec<Finding> = vec![];
+        for op in &case.ops {
+            ctx.report.count(&format!("op:{}", op_name(op)));
+            if std::env::var("C02_TRACE").is_ok() {
+                eprintln!("op {:?} cfg {:?}", op, case.config);
+            }
+            e.apply(ctx, op, case, &mut found);
+        }
+        for err in e.errors.iter().take(2) {
+            found.push(Finding { kind: "oracle", key: "C02:api-error".into(), what: err.clone() });
+        }
+        ctx.report.count(&format!("threads:{}", case.config.threads));
+        ctx.report.count(&format!("cut:{}", case.config.cut));
+        ctx.report.count(&format!("merge-policy:{}", if case.config.policy == 0 { "none".to_string() } else { format!("log{}", case.config.policy) }));
+        ctx.report.count(&format!("max-segments:{}", match e.nsegs_max { 0 => "0", 1 => "1", 2..=3 => "2-3", 4..=7 => "4-7", _ => "8+" }));
+        drop(e.writer.take());
+        tantivy::verif::set_segment_cut_docs(0);
+        found
+    }));
+    match res {
+        Ok(f) => out.extend(f),
+        Err(p) => {
+            tantivy::verif::set_segment_cut_docs(0);
+            let msg = p.downcast_ref::<String>().cloned().or_else(|| p.downcast_ref::<&str>().map(|s| s.to_string())).unwrap_or_default();
+            out.push(Finding { kind: "oracle", key: "C02:panic".into(), what: format!("panic while executing the history: {msg}") });
+        }
+    }
+    out
+}
+
+fn op_name(op: &HOp) -> &'static str {
+    match op {
+        HOp::Add(_) => "add",
+        HOp::DelTerm(_) => "delete_term",
+        HOp::DelQuery(_) => "delete_query",
+        HOp::Batch(_) => "run",
+        HOp::DeleteAll => "delete_all",
+        HOp::Commit => "commit",
+        HOp::CommitPrepared(_) => "prepare+commit",
+        HOp::PrepareDrop => "prepare+drop",
+        HOp::PrepareAbort => "prepare+abort",
+        HOp::Rollback => "rollback",
+        HOp::Merge(_) => "merge",
+        HOp::WaitMergeReopen => "wait_merging_threads",
+        HOp::DropReopen(_) => "drop+reopen",
+        HOp::Concurrent(_) => "producers",
+    }
+}
+
+fn report_findings(ctx: &mut Ctx, case: &Case, findings: Vec<Finding>) {
+    let mut seen: BTreeMap<String, u32> = BTreeMap::new();
+    for f in findings {
+        let n = seen.entry(f.key.clone()).or_insert(0);
+        *n += 1;
+        if *n > 1 {
+            continue;
+        }
+        ctx.report.violation(f.kind, &f.key, f.what, serde_json::to_value(case).unwrap());
+    }
+}
+
+/// hand-written corpus: the three known shapes and their clean neighbours
+fn corpus() -> Vec<Case> {
+    let cfg = |threads, cut| Config { threads, cut, policy: 0, mmap: false };
+    vec![
+        // F1
+        Case { config: cfg(1, 0), ops: vec![HOp::Add(1), HOp::Add(2), HOp::Commit] },
+        // F2: add a; commit; add b; delete_all; commit
+        Case { config: cfg(1, 0), ops: vec![HOp::Add(1), HOp::Commit, HOp::Add(2), HOp::DeleteAll, HOp::Commit] },
+        // F3: commit; delete_term(k); delete_all; add(k); commit; adds; commit
+        Case { config: cfg(1, 0), ops: vec![HOp::Commit, HOp::DelTerm(Q::Id(7)), HOp::DeleteAll, HOp::Add(7), HOp::Commit, HOp::Add(8), HOp::Add(9), HOp::Add(10), HOp::Commit] },
+        // F3': the stale delete was already committed by the same writer
+        Case { config: cfg(1, 0), ops: vec![HOp::DelTerm(Q::Id(5)), HOp::DelTerm(Q::Id(7)), HOp::Commit, HOp::DeleteAll, HOp::Add(7), HOp::Commit] },
+        // F8: first delete of a re-created writer + merge of committed segments, no commit
+        Case { config: cfg(1, 0), ops: vec![HOp::Add(7), HOp::Add(8), HOp::Commit, HOp::Rollback, HOp::DelTerm(Q::Id(7)), HOp::Merge(1), HOp::DropReopen(true)] },
+        // F8 through the merge policy (shape reported by the C01 check): one-document segments,
+        // reopen, first operation a delete by term, adds, wait_merging_threads without commit
+        Case { config: Config { threads: 1, cut: 1, policy: 2, mmap: false }, ops: vec![HOp::Add(1), HOp::Add(2), HOp::Add(3), HOp::Commit, HOp::DropReopen(true), HOp::DelTerm(Q::Grp(doc_grp(2))), HOp::Add(4), HOp::Add(5), HOp::Add(6), HOp::WaitMergeReopen] },
+        // the same with the delete as *second* operation: must equal the replay (a difference here
+        // would be a new violation, not F8)
+        Case { config: Config { threads: 1, cut: 1, policy: 2, mmap: false }, ops: vec![HOp::Add(1), HOp::Add(2), HOp::Add(3), HOp::Commit, HOp::DropReopen(true), HOp::Add(4), HOp::DelTerm(Q::Grp(doc_grp(2))), HOp::Add(5), HOp::Add(6), HOp::WaitMergeReopen] },
+        // clean delete_all: equals replay
+        Case { config: cfg(2, 1), ops: vec![HOp::Add(1), HOp::Add(2), HOp::Commit, HOp::DropReopen(true), HOp::DeleteAll, HOp::Add(3), HOp::Commit, HOp::Add(4), HOp::Rollback, HOp::DeleteAll, HOp::Commit] },
+        // delete only earlier, same segment / other segment / committed segment
+        Case { config: cfg(1, 2), ops: vec![HOp::Add(1), HOp::Add(2), HOp::Add(3), HOp::Commit, HOp::Add(4), HOp::DelQuery(Q::All), HOp::Add(5), HOp::Add(6), HOp::DelTerm(Q::Id(7)), HOp::Add(7), HOp::Commit] },
+        // batch: delete then re-add inside one batch
+        Case { config: cfg(3, 1), ops: vec![HOp::Add(1), HOp::Batch(vec![BItem::Del(Q::Id(1)), BItem::Add(2), BItem::Del(Q::Id(2)), BItem::Add(3), BItem::Del(Q::Id(4)), BItem::Add(4)]), HOp::Batch(vec![]), HOp::Commit] },
+    ]
+}
 
 pub fn run(ctx: &mut Ctx) {
-    ctx.report.notes.push("C02: harness not built yet".into());
+    ctx.report.rule = "a case = one check point (commit / rollback / abort / reopen) of a generated history; \
+        distinct = distinct (configuration, history prefix); non-trivial = the prefix contains at least one \
+        document and at least one delete operation".into();
+    ctx.report.correspondence_obligations = vec![
+        "published id multiset (stored fields = fast field = term queries) = harness sequential replay".into(),
+        "published id multiset = Lean `replay` of the same history".into(),
+        "published id multiset = Lean implementation-level model under a pseudo-random schedule (hypothesis of C02_commit_refines_replay_partial holds)".into(),
+        "returned opstamps = model opstamps (stamper ticked to the observed values); meta.json opstamp; commit_opstamp()".into(),
+        "Lean side condition (`C02 clean`) = harness classification of delete_all_documents calls".into(),
+        "every survivor once, with all its fields; payload; rollback() = last commit".into(),
+    ];
+    if let Some(case) = ctx.replay.clone() {
+        match serde_json::from_value::<Case>(case) {
+            Ok(c) => {
+                let f = run_case(ctx, &c);
+                for x in &f {
+                    ctx.report.notes.push(format!("replay: {} {} {}", x.kind, x.key, x.what));
+                }
+                report_findings(ctx, &c, f);
+            }
+            Err(e) => ctx.report.notes.push(format!("replay case not understood: {e}")),
+        }
+        return;
+    }
+    for c in corpus() {
+        let f = run_case(ctx, &c);
+        report_findings(ctx, &c, f);
+    }
+    let histories = ctx.budget(170, 3500);
+    for k in 0..histories {
+        let mut rng = ctx.rng.fork();
+        let profile = match k % 10 { 0..=4 => 0, 5 | 6 => 1, 7 | 8 => 2, _ => 3 };
+        let case = gen_case(&mut rng, profile);
+        let f = run_case(ctx, &case);
+        if ctx.report.samples.len() < 4 && k % 7 == 3 {
+            ctx.report.sample(json!({"config": case.config, "ops": case.ops.len(), "first_ops": case.ops.iter().take(12).collect::<Vec<_>>(), "findings": f.iter().map(|x| x.key.clone()).collect::<Vec<_>>()}));
+        }
+        report_findings(ctx, &case, f);
+    }
+    ctx.report.traces_validated_against_impl = ctx.report.distribution.get("impl-model:runs").cloned().unwrap_or(0);
 }
